@@ -4,6 +4,7 @@ client hooks:
   instr(b, idx, i, facts) -> facts            (may record observations)
   edge(b, cond, truth, facts) -> facts or None (None = edge infeasible)
   ret(b, term, facts)                          (observe returns)
+  case(b, expr, value|None, facts) -> facts or None   (optional: switch edges; None value = default)
 States are frozensets of hashable facts; all states reaching a point are kept (no join),
 so disjunctive invariants such as "owner OR fresh copy" are represented exactly.
 """
@@ -40,6 +41,15 @@ def explore(f, hooks, start=frozenset(), limit=6000, reach=None):
         elif t[0] == 'ret':
             for facts in outs:
                 hooks.ret(b, t, facts)
+        elif t[0] == 'switch' and hasattr(hooks, 'case'):
+            for facts in outs:
+                for v, bb in t[2]:
+                    f2 = hooks.case(b, t[1], v, facts)
+                    if f2 is not None:
+                        nxt.append((bb, f2))
+                f2 = hooks.case(b, t[1], None, facts)
+                if f2 is not None:
+                    nxt.append((t[3], f2))
         else:
             for facts in outs:
                 for s in b.succs():
